@@ -8,6 +8,7 @@ CONSTANTS
   Pts = {0, 1, 2}
   Layouts = {1, 2}
   AnchorKinds = {"d", "x"}
+  Ancs = {0, 1}
   Deviation = "none"
 INVARIANT TypeOK
 INVARIANT WrittenOnce
